@@ -27,6 +27,8 @@ var (
 // isoViews gives the expected bytes of a generated image: the canonical image is one sequential
 // read of a library object of the same directory (its content and structure are C07/C08's
 // business); the fields two opens may differ in (C18's mask) are don't-care.
+var isoBuildMu sync.Mutex
+
 func isoViews(w *model.World, virtual int, rel string) (model.View, bool, bool) {
 	ps3 := virtual == model.VirtPS3
 	key := fmt.Sprintf("%s|%s|%v", w.Root, rel, ps3)
@@ -49,6 +51,10 @@ func isoViews(w *model.World, virtual int, rel string) (model.View, bool, bool) 
 				return isoViewEntry{} // unusual TITLE_ID: not judged
 			}
 		}
+		// one reference image at a time: the harness must not itself be a concurrent user of the library
+		// under test (a defect that needs concurrent builds would take the harness down, not the server)
+		isoBuildMu.Lock()
+		defer isoBuildMu.Unlock()
 		v, _, err, perr := libOpenImage(w.Root, rel, ps3, 0)
 		if err != nil || perr != nil {
 			return isoViewEntry{} // creation trouble is judged by C04/C07/C08, not here
